@@ -281,6 +281,7 @@ def nested_try_family():
       outer_fin  outer try has a finally block (forced when place = finally)
       deep       the inner finally block itself contains a third try/finally whose body jumps
       tail       a statement follows the inner try inside the part / follows the outer try
+      lead       (place = else) the else block starts with the inner try or the `if` itself / with a plain statement
     break/continue variants are wrapped in a loop.  Returns a list of function bodies (same tree format as `Space`)."""
     S = ('S',)
     ends = {'fall': [S], 'ret': [('RET',)], 'raise': [('RAISE',)], 'brk': [('BRK',)], 'cont': [('CONT',)]}
@@ -297,6 +298,8 @@ def nested_try_family():
                                 if deep and inner == 'h':
                                     continue
                                 for tail in (0, 1, 2, 3):
+                                  # the else block starts with the inner try / the `if` itself, or with a plain statement
+                                  for lead in ((False, True) if place == 'else' else (False,)):
                                     ifin = [S]
                                     if deep:
                                         ifin = [('TRY', list(ends[ending if ending != 'fall' else 'ret']), [], [], [S]), S]
@@ -309,8 +312,8 @@ def nested_try_family():
                                         part = [('IF', [itry], [])]
                                     else:
                                         part = [('IF', [S], [itry])]
-                                    if place == 'else':
-                                        part = [S] + part          # a try-else block must not start with `if` (known crash)
+                                    if lead:
+                                        part = [S] + part
                                     if tail & 1:
                                         part = part + [S]
                                     obody = [S] + list(ends[reach]) if reach == 'fall' else list(ends[reach])
@@ -358,7 +361,7 @@ def raise_handler_family():
                             else:
                                 ibody = [S]
                             ih = [[S, R] if (place == 'handler' and j == 0) else [S] for j in range(len(icl))]
-                            ielse = [S, R] if place == 'else' else []
+                            ielse = ([R] if after else [S, R]) if place == 'else' else []     # also: else block starting with `if`
                             itry = ('TRY', ibody, ih, ielse, [S] if ifin else [], icl)
                             otry = ('TRY', [itry] + ([S] if after else []), [[S] for _ in ocl], [], [], ocl)
                             out.append([otry, ('RET',)])
